@@ -110,6 +110,30 @@ pub fn fail_write_slp(game: &Game, limit: usize) {
 }
 
 pub fn fail_write_slpp(game: Game, comp: Comp, limit: usize) {
+	let _ = fail_write_slpp_outcome(game, comp, limit);
+}
+
+/// As `fail_write_slpp`, returning what the writer answered and how many bytes the sink took.
+pub fn fail_write_slpp_outcome(game: Game, comp: Comp, limit: usize) -> Outcome<usize> {
+	let opts = ppi::ser::Opts {
+		compression: match comp {
+			Comp::None => None,
+			Comp::Lz4 => Some(arrow2::io::ipc::write::Compression::LZ4),
+			Comp::Zstd => Some(arrow2::io::ipc::write::Compression::ZSTD),
+		},
+		..Default::default()
+	};
+	let mut w = FailWriter { limit, written: 0 };
+	let r = guard(|| ppi::write(&mut w, game, Some(&opts)).map_err(|e| format!("{}", e)));
+	match r {
+		Outcome::Ok(()) => Outcome::Ok(w.written),
+		Outcome::Err(e) => Outcome::Err(e),
+		Outcome::Panic(p) => Outcome::Panic(p),
+	}
+}
+
+#[allow(dead_code)]
+fn fail_write_slpp_old(game: Game, comp: Comp, limit: usize) {
 	let opts = ppi::ser::Opts {
 		compression: match comp {
 			Comp::None => None,
